@@ -471,7 +471,9 @@ fn shapes(max_cells: usize, diagonal: bool) -> Vec<Vec<(i32, i32)>> {
     all
 }
 
-fn lattice_net(shape: &[(i32, i32)]) -> Result<Net, String> {
+/// `loaded`: 0 = nodes as inserted (no error, data only in the initial nodes); 1 = every node holds one input near its
+/// weights and an accumulated error just below the growing threshold; 2 = the same with an error far above it.
+fn lattice_net(shape: &[(i32, i32)], loaded: u8) -> Result<Net, String> {
     let random: Arc<dyn Random> = Arc::new(ScriptedRandom::new(vec![], Fallback::Default));
     let config = NetworkConfig { node_size: 2, spread_factor: 0.5, distribution_factor: 0.5, learning_rate: 0.1, rebalance_memory: 10, has_initial_error: true };
     let initial: Vec<Inp> = (0..4).map(|i| Inp { w: vec![(i % 2) as f64, (i / 2) as f64] }).collect();
@@ -485,13 +487,24 @@ fn lattice_net(shape: &[(i32, i32)]) -> Result<Net, String> {
             net.verif_remove(&c);
         }
     }
+    if loaded > 0 {
+        // growing threshold of the configuration above: -dim * ln(spread)
+        let threshold = -2. * (0.5f64).ln();
+        for (x, y) in shape {
+            let node = net.verif_node_mut(&Coordinate(*x, *y)).ok_or_else(|| "hook H7 does not find a placed node".to_string())?;
+            node.error = if loaded == 1 { threshold * 0.999 } else { threshold * 10. };
+            if node.storage.size() == 0 {
+                node.storage.add(Inp { w: vec![*x as f64 * 0.1 + 0.03, *y as f64 * 0.1 - 0.02] });
+            }
+        }
+    }
     Ok(net)
 }
 
 /// Judges compaction of one shape: returns findings.
-fn judge_shape(shape: &[(i32, i32)]) -> Vec<(String, String)> {
+fn judge_shape(shape: &[(i32, i32)], loaded: u8) -> Vec<(String, String)> {
     let mut errs = vec![];
-    let built = catch(|| lattice_net(shape));
+    let built = catch(|| lattice_net(shape, loaded));
     let mut net = match built {
         Ok(Ok(n)) => n,
         Ok(Err(e)) => return vec![("lattice:cannot-build".into(), e)],
@@ -525,7 +538,12 @@ fn judge_shape(shape: &[(i32, i32)]) -> Vec<(String, String)> {
             if net.size() > shape.len() {
                 errs.push(("lattice:compaction-grows".into(), format!("{} nodes after, {} before", net.size(), shape.len())));
             }
-            if net.size() != expect {
+            if net.size() > expect {
+                errs.push((
+                    "lattice:compaction-adds-nodes".into(),
+                    format!("{} nodes before, {} survive the decimation (steps {xd},{yd}), {} are there afterwards: compaction created nodes", shape.len(), kept.len(), net.size()),
+                ));
+            } else if net.size() != expect {
                 errs.push((
                     "lattice:nodes-collapsed".into(),
                     format!("{} nodes before, {} survive the decimation (steps {xd},{yd}), {} are left: two survivors were mapped to one coordinate", shape.len(), kept.len(), net.size()),
@@ -552,12 +570,19 @@ fn run_lattices(ctx: &RunCtx, report: &mut Report) {
         let mut outcomes: HashSet<usize> = HashSet::new();
         for shape in chunks[i] {
             r.add_count("lattice_shapes", 1);
-            r.add_count("evaluations", 1);
-            r.add_count("transitions", 1);
-            let errs = judge_shape(shape);
-            outcomes.insert(errs.len());
-            for (key, what) in errs {
-                r.violation(Violation::new(format!("network:{key}"), format!("shape {shape:?}: {what}"), json!({"part": "lattice", "shape": shape})));
+            for loaded in 0..3u8 {
+                r.add_count("evaluations", 1);
+                r.add_count("transitions", 1);
+                r.add_count("lattice_compactions", 1);
+                let errs = judge_shape(shape, loaded);
+                outcomes.insert(errs.len());
+                for (key, what) in errs {
+                    r.violation(Violation::new(
+                        format!("network:{key}"),
+                        format!("shape {shape:?} (node load {loaded}): {what}"),
+                        json!({"part": "lattice", "shape": shape, "loaded": loaded}),
+                    ));
+                }
             }
         }
         r
@@ -679,7 +704,8 @@ pub fn replay(ctx: &RunCtx, scenario: &Value) -> Result<Vec<Violation>, String> 
                 .iter()
                 .filter_map(|c| Some((c[0].as_i64()? as i32, c[1].as_i64()? as i32)))
                 .collect();
-            for (key, what) in judge_shape(&shape) {
+            let loaded = scenario["loaded"].as_u64().unwrap_or(0) as u8;
+            for (key, what) in judge_shape(&shape, loaded) {
                 out.push(Violation::new(format!("network:{key}"), what, scenario.clone()));
             }
         }
